@@ -14,7 +14,7 @@ Line protocol of the `stream` engine (the leading token `stream` is stripped by 
                                 `<result>.<emit>.<nbits>.<hexbits|->` (all bits appended behind
                                 the carry by that invocation; emit = "nothing left unflushed")
                                 → `<ret>:<consumed>:<producedhex | #len>:<reqs>:<digest>`
-                                  reqs = `<site>.<lo>.<hi>.<last>.<flush>` joined by `/`, `-` if none
+                                  reqs = `<site>.<lo>.<hi>.<lf>.<last>.<flush>` joined by `/`, `-` if none
     T:<size>                    take_output(size)                   → `<n>:<hex | ->:<digest>`
   digest = st,ip,lf,lp,lb(-1 in skeleton mode; 0 when lbb = 0: the code leaves a stale byte there),lbb,ao,rm,le,init,to,fm,q,w,b,hint,cat,app,magic,lw,
            mode,dlcm,usedict,rpos,rcur,2*fin+more
@@ -58,7 +58,7 @@ def parseInput (t : String) : Option (List Nat) :=
   else if h.startsWith "#" then some (List.replicate (natArg (h.drop 1).toString + extra) 0)
   else some (hexToBytes h ++ List.replicate extra 0)
 
-def reqToken (r : Req) : String := s!"{r.site}.{r.lo}.{r.hi}.{b2n r.isLast}.{b2n r.forceFlush}"
+def reqToken (r : Req) : String := s!"{r.site}.{r.lo}.{r.hi}.{r.lf}.{b2n r.isLast}.{b2n r.forceFlush}"
 
 def runCalls (full : Bool) : St → List String → List String → List String
   | _, [], acc => acc
